@@ -90,6 +90,14 @@ pub fn events_from_std(evs: &[Event]) -> Vec<EventS> {
 
 pub fn msg_to_cosmos(m: &Msg) -> CosmosMsg<CMsg> {
     match m {
+        Msg::Custom { ok, tag } => CosmosMsg::Custom(CMsg { ok: *ok, tag: *tag }),
+        _ => msg_to_cosmos_nc(m).unwrap(),
+    }
+}
+
+/// every scripted message except `Msg::Custom` (None), for any custom message type of the emitter
+pub fn msg_to_cosmos_nc<C: CustomMsg>(m: &Msg) -> Option<CosmosMsg<C>> {
+    Some(match m {
         Msg::BankSend { to, amt } => BankMsg::Send { to_address: to.clone(), amount: coins_to_std(amt) }.into(),
         Msg::BankBurn { amt } => BankMsg::Burn { amount: coins_to_std(amt) }.into(),
         Msg::Exec { c, p, funds } => {
@@ -119,8 +127,8 @@ pub fn msg_to_cosmos(m: &Msg) -> CosmosMsg<CMsg> {
         }
         Msg::UpdateAdmin { c, a } => WasmMsg::UpdateAdmin { contract_addr: c.clone(), admin: a.clone() }.into(),
         Msg::ClearAdmin { c } => WasmMsg::ClearAdmin { contract_addr: c.clone() }.into(),
-        Msg::Custom { ok, tag } => CosmosMsg::Custom(CMsg { ok: *ok, tag: *tag }),
-    }
+        Msg::Custom { .. } => return None,
+    })
 }
 
 fn reply_on(r: ReplyOnS) -> ReplyOn {
@@ -173,55 +181,109 @@ pub fn run_qact(node: u64, storage: &dyn Storage, querier: &QuerierWrapper<Empty
     log(Entry::Obs { node, val });
 }
 
-impl Scripted {
-    fn run(&self, deps: DepsMut<Empty>, p: &Prog) -> AnyResult<Response<CMsg>> {
-        for a in &p.acts {
-            match a {
-                Action::Write(k, v) => deps.storage.set(k, v),
-                Action::Remove(k) => deps.storage.remove(k),
-                Action::Q(q) => run_qact(p.node, deps.storage, &deps.querier, q),
-            }
-        }
-        match &p.out {
-            Output::Fail => Err(anyhow!("scripted failure at node {}", p.node)),
-            Output::Resp { attrs, events, data, subs } => {
-                let mut r = Response::<CMsg>::new();
-                // struct literals: reserved keys must reach cw-multi-test, not cosmwasm-std's debug assertion
-                r.attributes = attrs.iter().map(|(k, v)| Attribute { key: k.clone(), value: v.clone() }).collect();
-                r.events = events
-                    .iter()
-                    .map(|(ty, at)| {
-                        let mut e = Event::new(ty.clone());
-                        e.attributes = at.iter().map(|(k, v)| Attribute { key: k.clone(), value: v.clone() }).collect();
-                        e
-                    })
-                    .collect();
-                r.data = data.clone().map(Binary::from);
-                r.messages = subs
-                    .iter()
-                    .map(|s| SubMsg {
-                        id: s.id,
-                        payload: to_json_binary(&ReplyPayload { tag: s.payload.clone(), on_ok: s.on_ok.clone(), on_err: s.on_err.clone() }).unwrap(),
-                        msg: msg_to_cosmos(&s.m),
-                        gas_limit: None,
-                        reply_on: reply_on(s.ro),
-                    })
-                    .collect();
-                Ok(r)
-            }
+/// the body shared by both flavours of scripted code (`Scripted`: the `Contract` trait implemented directly;
+/// `wrapped`: plain functions registered through `ContractWrapper::new_with_empty`): run the actions, then build
+/// the response with struct literals; `conv` turns a scripted message into the flavour's `CosmosMsg`
+pub fn run_prog<C: CustomMsg>(deps: DepsMut<Empty>, p: &Prog, conv: fn(&Msg) -> AnyResult<CosmosMsg<C>>) -> AnyResult<Response<C>> {
+    for a in &p.acts {
+        match a {
+            Action::Write(k, v) => deps.storage.set(k, v),
+            Action::Remove(k) => deps.storage.remove(k),
+            Action::Q(q) => run_qact(p.node, deps.storage, &deps.querier, q),
         }
     }
+    match &p.out {
+        Output::Fail => Err(anyhow!("scripted failure at node {}", p.node)),
+        Output::Resp { attrs, events, data, subs } => {
+            let mut r = Response::<C>::new();
+            // struct literals: reserved keys must reach cw-multi-test, not cosmwasm-std's debug assertion
+            r.attributes = attrs.iter().map(|(k, v)| Attribute { key: k.clone(), value: v.clone() }).collect();
+            r.events = events
+                .iter()
+                .map(|(ty, at)| {
+                    let mut e = Event::new(ty.clone());
+                    e.attributes = at.iter().map(|(k, v)| Attribute { key: k.clone(), value: v.clone() }).collect();
+                    e
+                })
+                .collect();
+            r.data = data.clone().map(Binary::from);
+            let mut messages = vec![];
+            for s in subs {
+                messages.push(SubMsg {
+                    id: s.id,
+                    payload: to_json_binary(&ReplyPayload { tag: s.payload.clone(), on_ok: s.on_ok.clone(), on_err: s.on_err.clone() }).unwrap(),
+                    msg: conv(&s.m)?,
+                    gas_limit: None,
+                    reply_on: reply_on(s.ro),
+                });
+            }
+            r.messages = messages;
+            Ok(r)
+        }
+    }
+}
+
+pub fn log_enter(tag: u64, ep: Ep, env: &Env, info: Option<&MessageInfo>, p: &Prog, rep: Option<(u64, B, RRes)>) {
+    log(Entry::Call {
+        node: p.node,
+        ep,
+        callee: env.contract.address.to_string(),
+        sender: info.map(|i| i.sender.to_string()),
+        funds: info.map(|i| coins_from_std(&i.funds)).unwrap_or_default(),
+        block: block_from_std(&env.block),
+        tag,
+        rep,
+    });
+}
+
+/// the reply entry point of both flavours
+pub fn run_reply<C: CustomMsg>(tag: u64, deps: DepsMut<Empty>, env: Env, msg: Reply, conv: fn(&Msg) -> AnyResult<CosmosMsg<C>>) -> AnyResult<Response<C>> {
+    let pl: ReplyPayload = match serde_json::from_slice(msg.payload.as_slice()) {
+        Ok(pl) => pl,
+        Err(e) => {
+            // the payload delivered is not the one any scripted sub-message carried: log the delivery under the
+            // node number 0 (no program has it) with the raw payload, so that the oracle sees it
+            #[allow(deprecated)]
+            let res = match &msg.result {
+                SubMsgResult::Ok(r) => RRes::Ok(events_from_std(&r.events), r.data.clone().map(|b| b.to_vec())),
+                SubMsgResult::Err(_) => RRes::Err,
+            };
+            let dummy = Prog { node: 0, acts: vec![], out: Output::Fail };
+            log_enter(tag, Ep::Reply, &env, None, &dummy, Some((msg.id, msg.payload.to_vec(), res)));
+            bail!("undecodable reply payload: {}", e)
+        }
+    };
+    #[allow(deprecated)]
+    let (res, p) = match &msg.result {
+        SubMsgResult::Ok(r) => (RRes::Ok(events_from_std(&r.events), r.data.clone().map(|b| b.to_vec())), &pl.on_ok),
+        SubMsgResult::Err(_) => (RRes::Err, &pl.on_err),
+    };
+    log_enter(tag, Ep::Reply, &env, None, p, Some((msg.id, pl.tag.clone(), res)));
+    run_prog(deps, p, conv)
+}
+
+/// the query entry point of both flavours
+pub fn run_query(tag: u64, deps: Deps<Empty>, env: Env, q: QProg) -> AnyResult<Binary> {
+    log(Entry::Query { node: q.node, callee: env.contract.address.to_string(), block: block_from_std(&env.block), tag });
+    for a in &q.acts {
+        run_qact(q.node, deps.storage, &deps.querier, a);
+    }
+    match q.ans {
+        Some(b) => Ok(Binary::from(b)),
+        None => Err(anyhow!("scripted query failure at node {}", q.node)),
+    }
+}
+
+fn conv_cmsg(m: &Msg) -> AnyResult<CosmosMsg<CMsg>> {
+    Ok(msg_to_cosmos(m))
+}
+
+impl Scripted {
+    fn run(&self, deps: DepsMut<Empty>, p: &Prog) -> AnyResult<Response<CMsg>> {
+        run_prog(deps, p, conv_cmsg)
+    }
     fn enter(&self, ep: Ep, env: &Env, info: Option<&MessageInfo>, p: &Prog, rep: Option<(u64, B, RRes)>) {
-        log(Entry::Call {
-            node: p.node,
-            ep,
-            callee: env.contract.address.to_string(),
-            sender: info.map(|i| i.sender.to_string()),
-            funds: info.map(|i| coins_from_std(&i.funds)).unwrap_or_default(),
-            block: block_from_std(&env.block),
-            tag: self.tag,
-            rep,
-        });
+        log_enter(self.tag, ep, env, info, p, rep)
     }
 }
 
@@ -242,14 +304,7 @@ impl Contract<CMsg, Empty> for Scripted {
     }
     fn query(&self, deps: Deps<Empty>, env: Env, msg: Vec<u8>) -> AnyResult<Binary> {
         let q: QProg = serde_json::from_slice(&msg).map_err(|e| anyhow!("undecodable query program: {}", e))?;
-        log(Entry::Query { node: q.node, callee: env.contract.address.to_string(), block: block_from_std(&env.block), tag: self.tag });
-        for a in &q.acts {
-            run_qact(q.node, deps.storage, &deps.querier, a);
-        }
-        match q.ans {
-            Some(b) => Ok(Binary::from(b)),
-            None => Err(anyhow!("scripted query failure at node {}", q.node)),
-        }
+        run_query(self.tag, deps, env, q)
     }
     fn sudo(&self, deps: DepsMut<Empty>, env: Env, msg: Vec<u8>) -> AnyResult<Response<CMsg>> {
         if !self.has_sudo {
@@ -263,28 +318,7 @@ impl Contract<CMsg, Empty> for Scripted {
         if !self.has_reply {
             bail!("reply not implemented for contract")
         }
-        let pl: ReplyPayload = match serde_json::from_slice(msg.payload.as_slice()) {
-            Ok(pl) => pl,
-            Err(e) => {
-                // the payload delivered is not the one any scripted sub-message carried: log the delivery under the
-                // node number 0 (no program has it) with the raw payload, so that the oracle sees it
-                #[allow(deprecated)]
-                let res = match &msg.result {
-                    SubMsgResult::Ok(r) => RRes::Ok(events_from_std(&r.events), r.data.clone().map(|b| b.to_vec())),
-                    SubMsgResult::Err(_) => RRes::Err,
-                };
-                let dummy = Prog { node: 0, acts: vec![], out: Output::Fail };
-                self.enter(Ep::Reply, &env, None, &dummy, Some((msg.id, msg.payload.to_vec(), res)));
-                bail!("undecodable reply payload: {}", e)
-            }
-        };
-        #[allow(deprecated)]
-        let (res, p) = match &msg.result {
-            SubMsgResult::Ok(r) => (RRes::Ok(events_from_std(&r.events), r.data.clone().map(|b| b.to_vec())), &pl.on_ok),
-            SubMsgResult::Err(_) => (RRes::Err, &pl.on_err),
-        };
-        self.enter(Ep::Reply, &env, None, p, Some((msg.id, pl.tag.clone(), res)));
-        self.run(deps, p)
+        run_reply(self.tag, deps, env, msg, conv_cmsg)
     }
     fn migrate(&self, deps: DepsMut<Empty>, env: Env, msg: Vec<u8>) -> AnyResult<Response<CMsg>> {
         if !self.has_migrate {
@@ -296,5 +330,99 @@ impl Contract<CMsg, Empty> for Scripted {
     }
     fn checksum(&self) -> Option<Checksum> {
         self.checksum
+    }
+}
+
+/// The second flavour of scripted code: the same behaviour, but written as plain `Response<Empty>` functions and
+/// registered through `ContractWrapper::new_with_empty(..).with_sudo_empty(..).with_reply_empty(..)
+/// .with_migrate_empty(..)` (+ `with_checksum`), so that every response passes through cw-multi-test's
+/// `customize_response` / `customize_msg` and every message through the wrapper's own serde decoding
+/// (`cosmwasm_std::from_json::<Prog>` instead of `serde_json::from_slice`).  `ContractWrapper` takes `fn`
+/// pointers: the code tag is a const generic.  An Empty-typed contract cannot emit `CosmosMsg::Custom`: a program
+/// with a `Msg::Custom` sub-message that reaches a wrapped contract fails (Err) and is counted in
+/// `CUSTOM_REACHED` — the generator guarantees that this never happens (`gen::sanitize_wrapped`), the driver
+/// asserts it.
+pub mod wrapped {
+    use super::*;
+    use cw_multi_test::ContractWrapper;
+    use std::cell::Cell;
+
+    thread_local! {
+        pub static CUSTOM_REACHED: Cell<u64> = Cell::new(0);
+    }
+    pub fn take_custom_reached() -> u64 {
+        CUSTOM_REACHED.with(|c| c.replace(0))
+    }
+
+    fn conv_empty(m: &Msg) -> AnyResult<CosmosMsg<Empty>> {
+        match msg_to_cosmos_nc::<Empty>(m) {
+            Some(c) => Ok(c),
+            None => {
+                CUSTOM_REACHED.with(|c| c.set(c.get() + 1));
+                bail!("an Empty-typed contract cannot emit a custom message")
+            }
+        }
+    }
+
+    fn w_execute<const TAG: u64>(deps: DepsMut<Empty>, env: Env, info: MessageInfo, p: Prog) -> AnyResult<Response<Empty>> {
+        log_enter(TAG, Ep::Exec, &env, Some(&info), &p, None);
+        run_prog(deps, &p, conv_empty)
+    }
+    fn w_instantiate<const TAG: u64>(deps: DepsMut<Empty>, env: Env, info: MessageInfo, p: Prog) -> AnyResult<Response<Empty>> {
+        log_enter(TAG, Ep::Inst, &env, Some(&info), &p, None);
+        run_prog(deps, &p, conv_empty)
+    }
+    fn w_query<const TAG: u64>(deps: Deps<Empty>, env: Env, q: QProg) -> AnyResult<Binary> {
+        run_query(TAG, deps, env, q)
+    }
+    fn w_sudo<const TAG: u64>(deps: DepsMut<Empty>, env: Env, p: Prog) -> AnyResult<Response<Empty>> {
+        log_enter(TAG, Ep::Sudo, &env, None, &p, None);
+        run_prog(deps, &p, conv_empty)
+    }
+    fn w_reply<const TAG: u64>(deps: DepsMut<Empty>, env: Env, msg: Reply) -> AnyResult<Response<Empty>> {
+        run_reply(TAG, deps, env, msg, conv_empty)
+    }
+    fn w_migrate<const TAG: u64>(deps: DepsMut<Empty>, env: Env, p: Prog) -> AnyResult<Response<Empty>> {
+        log_enter(TAG, Ep::Migrate, &env, None, &p, None);
+        run_prog(deps, &p, conv_empty)
+    }
+
+    /// an entry point the code lacks is simply not given to the wrapper (its own "not implemented" error answers)
+    fn build<const TAG: u64>(has_sudo: bool, has_reply: bool, has_migrate: bool, checksum: Option<Checksum>) -> Box<dyn Contract<CMsg, Empty>> {
+        let base = || ContractWrapper::<Prog, Prog, QProg, anyhow::Error, anyhow::Error, anyhow::Error, CMsg, Empty>::new_with_empty(w_execute::<TAG>, w_instantiate::<TAG>, w_query::<TAG>);
+        macro_rules! fin {
+            ($w:expr) => {{
+                let w = $w;
+                match checksum {
+                    Some(cs) => Box::new(w.with_checksum(cs)) as Box<dyn Contract<CMsg, Empty>>,
+                    None => Box::new(w) as Box<dyn Contract<CMsg, Empty>>,
+                }
+            }};
+        }
+        match (has_sudo, has_reply, has_migrate) {
+            (false, false, false) => fin!(base()),
+            (true, false, false) => fin!(base().with_sudo_empty(w_sudo::<TAG>)),
+            (false, true, false) => fin!(base().with_reply_empty(w_reply::<TAG>)),
+            (true, true, false) => fin!(base().with_sudo_empty(w_sudo::<TAG>).with_reply_empty(w_reply::<TAG>)),
+            (false, false, true) => fin!(base().with_migrate_empty(w_migrate::<TAG>)),
+            (true, false, true) => fin!(base().with_sudo_empty(w_sudo::<TAG>).with_migrate_empty(w_migrate::<TAG>)),
+            (false, true, true) => fin!(base().with_reply_empty(w_reply::<TAG>).with_migrate_empty(w_migrate::<TAG>)),
+            (true, true, true) => fin!(base().with_sudo_empty(w_sudo::<TAG>).with_reply_empty(w_reply::<TAG>).with_migrate_empty(w_migrate::<TAG>)),
+        }
+    }
+
+    /// the tags for which wrapped functions are stamped out (those of `gen::default_codes` / `gen::wrapped_codes`)
+    pub const TAGS: [u64; 6] = [101, 102, 104, 105, 107, 109];
+
+    pub fn contract(tag: u64, has_sudo: bool, has_reply: bool, has_migrate: bool, checksum: Option<Checksum>) -> Box<dyn Contract<CMsg, Empty>> {
+        match tag {
+            101 => build::<101>(has_sudo, has_reply, has_migrate, checksum),
+            102 => build::<102>(has_sudo, has_reply, has_migrate, checksum),
+            104 => build::<104>(has_sudo, has_reply, has_migrate, checksum),
+            105 => build::<105>(has_sudo, has_reply, has_migrate, checksum),
+            107 => build::<107>(has_sudo, has_reply, has_migrate, checksum),
+            109 => build::<109>(has_sudo, has_reply, has_migrate, checksum),
+            _ => panic!("no wrapped flavour is stamped out for code tag {} (see contract::wrapped::TAGS)", tag),
+        }
     }
 }
